@@ -339,6 +339,9 @@ class KernelX(Kernel):
     def _like(self, a, st):
         if a.dims is not None:
             return a.with_dims(a.dims)
+        rk = self._rank_hint(a)
+        if rk is not None:
+            return Arr(fresh(a.ident + '.like'), [a.dim(k, st.facts) for k in range(rk)])
         r = Arr(fresh(a.ident + '.like'), None)
         r._lazy = a._lazy   # shares the per-axis size symbols
         for k in range(4):
